@@ -4,7 +4,7 @@ use proptest::prelude::*;
 use serde::{Deserialize, Serialize};
 
 pub const ID_UNIVERSE: [&[u8; 4]; 7] = [b"ECU1", b"ECU2", b"AB\0\0", b"ABC\0", b"A\0\0\0", b"SYS\0", b"ABCD"];
-pub const PAY_WORDS: [&str; 8] = ["error", "Error", "ERROR code 42", "warning low", "state=on", "Alpha beta", "x", "boot done 7"];
+pub const PAY_WORDS: [&str; 11] = ["error", "Error", "ERROR code 42", "warning low", "state=on", "Alpha beta", "x", "boot done 7", "a.b c+ (on", "aXb cc [0", " a<b&c>d "];
 
 /// one position of a simple id pattern
 #[derive(Clone, Debug, Serialize, Deserialize, PartialEq, Eq)]
@@ -481,7 +481,15 @@ pub fn to_eac(f: &AF) -> String {
         Some(IdCrit::Lit(s)) => s.clone(),
         Some(IdCrit::Re(r)) => r.pattern(),
     };
-    format!("{}:{}:{}", p(&f.ecu), p(&f.apid), p(&f.ctid))
+    let full = format!("{}:{}:{}", p(&f.ecu), p(&f.apid), p(&f.ctid));
+    // the short forms (trailing empty parts left out: "ECU", "ECU:APID", ":APID") mean the same
+    if full.bytes().map(|b| b as usize).sum::<usize>() % 2 == 0 {
+        let t = full.trim_end_matches(':');
+        if !t.is_empty() {
+            return t.to_string();
+        }
+    }
+    full
 }
 
 // ---------------------------------------------------------------------------------------
@@ -512,6 +520,8 @@ pub fn id_crit() -> impl Strategy<Value = IdCrit> {
 fn pay_crit() -> impl Strategy<Value = PayCrit> {
     prop_oneof![
         3 => prop::sample::select(vec!["error", "Error", "ERROR", "low", "on", "beta", "x", "42", "done 7", "=", "zzz"]).prop_map(|s| PayCrit::Lit(s.to_string())),
+        // literals with regex meta characters, blanks at the ends, xml special characters: literal means literal
+        2 => prop::sample::select(vec!["a.b", "(on", "c+", "[0", "b c+ (", "A.B", " a<b", "c>d ", "b&c", "c+ "]).prop_map(|s| PayCrit::Lit(s.to_string())),
         2 => prop::sample::select(vec!["^error", "error$", "err.r", "warn|boot", "[0-9]+", "^x$", "state=(on|off)", "a{2}", "(?:E|e)rror code", "\\bbeta\\b"]).prop_map(|s| PayCrit::Re(s.to_string())),
     ]
 }
@@ -558,7 +568,7 @@ pub fn fmsg() -> impl Strategy<Value = FMsg> {
             ),
         ),
         0u32..6,
-        0u8..8,
+        0u8..11,
         any::<bool>(),
         prop::option::weighted(0.05, prop::array::uniform4(0u8..0x80)),
     )
